@@ -391,6 +391,7 @@ class Gen:
         own_vftable = False
         has_vftable = False
         base_assoc = []
+        base_fields = []
         # bases first (they come first in C++ layouts)
         cands = [t for t in self.visible_types(mod) if t.kind == "type" and not t.packed]
         first_base = None
@@ -474,6 +475,7 @@ class Gen:
             fname = self.fresh("b")
             docs, _ = self.doc("    ")
             place(fname, self.ref_name(mod, b), b.size, b.align, ["base"], self.vis(), docs)
+            base_fields.append((fname, "::".join(b.path)))
             all_copy &= b.copyable
             all_clone &= b.cloneable
             all_default &= b.defaultable
@@ -595,7 +597,7 @@ class Gen:
             slot_descs=[({k: v for k, v in d.items() if k != "text"} if d else None) for d in (vslots or [])],
             declared_vft=declare_vft, copyable=copyable, cloneable=cloneable, defaultable=defaultable,
             singleton=singleton, pub=pub, doc=doc_lines, impls=impl_desc,
-            bases=["::".join(b.path) for b in bases])
+            bases=["::".join(b.path) for b in bases], base_fields=base_fields)
         return t
 
     def gen_extern_value(self, mod):
